@@ -708,6 +708,19 @@ def run_history(job: T.Tuple[T.Any, ...]) -> dict:
                             break
                 if bad:
                     break
+            # the recorded command line is persisted state too: it is what the next --wipe re-derives the configuration from
+            cpr = configparser.ConfigParser(delimiters=['='], allow_no_value=True, interpolation=None)
+            cpr.optionxform = str  # type: ignore
+            try:
+                cpr.read(os.path.join(b, 'meson-private', 'cmd_line.txt'))
+                rec_now = dict(cpr['options']) if cpr.has_section('options') else None
+            except configparser.Error:
+                rec_now = None
+            res['checked_values'] += 1
+            if rec_now != m.st.record:
+                problem(f'{step["step"]}{"" if expect_ok else "-failed"}/recorded-command-line-differs',
+                        got=rec_now, expected=m.st.record)
+                break
             if rr.rc == 0:
                 for k in list(last_edit):
                     last_edit.pop(k)
